@@ -3972,6 +3972,7 @@ func abortCalls(repo string) {
 //
 //	gen_fastpath_clones      : bool  packageParse.unpack: an assignment `data = bytes.Clone(data)` stands before the first
 //	                                 `.Decode(data)` call (the fast path decodes a copy of the read, fix adede50)
+//	gen_decode_fresh         : bool  packageParse.unpack: every `x.Decode(..)` is on a local `x := jt808.NewJTMessage()`
 //	gen_history_nil          : bool  packageParse.unpack: p.historyData is assigned `nil` when consumed, and is never
 //	                                 assigned a re-slice of itself from 0 (`[0:0]`, `[:0]`) nor anything that is not
 //	                                 nil / append(p.historyData, ..) / p.historyData[end:]
@@ -4122,6 +4123,26 @@ func ownershipShapes(repo string) {
 			}
 			return true
 		})
+		// every JTMessage unpack decodes into is a local `x := jt808.NewJTMessage()` (a fresh header per delivered message)
+		nDecode, allFresh := 0, true
+		ast.Inspect(fd.Body, func(x ast.Node) bool {
+			if c, ok := x.(*ast.CallExpr); ok {
+				if se, ok := c.Fun.(*ast.SelectorExpr); ok && se.Sel.Name == "Decode" {
+					nDecode++
+					ok2 := false
+					if id, ok := se.X.(*ast.Ident); ok && id.Obj != nil {
+						if as, ok := id.Obj.Decl.(*ast.AssignStmt); ok && as.Tok == token.DEFINE && len(as.Rhs) == 1 && str(as.Rhs[0]) == "jt808.NewJTMessage()" {
+							ok2 = true
+						}
+					}
+					if !ok2 {
+						allFresh = false
+					}
+				}
+			}
+			return true
+		})
+		fmt.Fprintf(&out, "Definition gen_decode_fresh : bool := %v.\n", allFresh && nDecode > 0)
 		if firstDecode == 0 {
 			fail("ownership/unpack", "no .Decode(data) call")
 		} else {
@@ -4199,14 +4220,14 @@ func main() {
 	constants(*repo)
 	simRegistry(parseDir(filepath.Join(*repo, "terminal")), svc, model) // C20/C06 addition
 	paramTable(model)
-	fixedLayouts(model) // T7 (C07)
-	frameLayout(*repo)  // header layout of the JT/T 808 frame (C01 C02 C04)
-	jt1078Layout(*repo) // header layout of the JT/T 1078 packet (C17)
-	attachLayout(*repo) // chunk header of the attachment stream (C15)
-	fileHandler(*repo)  // file-system calls of package attachment and the save step (C19)
-	timeCalls(*repo)    // timers, sleeps and deadlines of service / attachment (C11 C12 C13)
-	abortCalls(*repo)   // explicit panic / os.Exit / log.Fatal calls (C03 C10 C13)
-	stringOps(*repo)    // String() methods: partial operations and callees (C03)
+	fixedLayouts(model)    // T7 (C07)
+	frameLayout(*repo)     // header layout of the JT/T 808 frame (C01 C02 C04)
+	jt1078Layout(*repo)    // header layout of the JT/T 1078 packet (C17)
+	attachLayout(*repo)    // chunk header of the attachment stream (C15)
+	fileHandler(*repo)     // file-system calls of package attachment and the save step (C19)
+	timeCalls(*repo)       // timers, sleeps and deadlines of service / attachment (C11 C12 C13)
+	abortCalls(*repo)      // explicit panic / os.Exit / log.Fatal calls (C03 C10 C13)
+	stringOps(*repo)       // String() methods: partial operations and callees (C03)
 	ownershipShapes(*repo) // what the receive path copies / shares (C09)
 	q := make([]string, len(unrecognised))
 	for i, u := range unrecognised {
